@@ -453,19 +453,32 @@ func (p *Pkg) CheckRelationships() []Problem {
 		})
 		// parts that are used by the main part must be reachable through a relationship of the main part
 	}
-	// notes/numbering/settings parts present in the package must be attached to the main part
-	if main != "" {
+	// a part the main document uses by id (numbering through w:numId, notes through
+	// w:footnoteReference / w:endnoteReference) must be attached to the main part
+	if main != "" && p.XML[main] != nil {
 		have := map[string]bool{}
 		for _, r := range p.Rels[RelsNameFor(main)] {
-			if r.Mode != "External" {
-				have[r.Resolved] = true
-			}
+			have[r.Type] = true
 		}
-		dir, _ := path.Split(main)
-		for _, x := range []string{"footnotes.xml", "endnotes.xml", "numbering.xml", "settings.xml", "styles.xml"} {
-			pn := dir + x
-			if _, ok := p.Parts[pn]; ok && !have[pn] {
-				out = append(out, Problem{"part-not-attached-to-user", pn, "present in the package but the main part has no relationship to it"})
+		uses := map[string]bool{}
+		p.XML[main].Walk(func(n *Node) {
+			if n.Space != NsW {
+				return
+			}
+			switch n.Local {
+			case "numId":
+				if v := n.AttrW("val"); v != "" && v != "0" {
+					uses[RtNumbering] = true
+				}
+			case "footnoteReference":
+				uses[RtFootnotes] = true
+			case "endnoteReference":
+				uses[RtEndnotes] = true
+			}
+		})
+		for _, t := range []string{RtNumbering, RtFootnotes, RtEndnotes} {
+			if uses[t] && !have[t] {
+				out = append(out, Problem{"used-part-not-attached", shortType(t), "the main part uses " + shortType(t) + " by id but has no relationship of that type"})
 			}
 		}
 	}
